@@ -434,9 +434,11 @@ def _default(f):
     raise KeyError(f.name)
 
 
-def _post_init_rejects(S, values):
+def _post_init_rejects(S, values, set_fields=()):
     pi = S.post_init
     if pi == 'raise': return True
+    if isinstance(pi, tuple) and pi[0] == 'raise_if_set':
+        return pi[1] in set_fields
     if isinstance(pi, tuple) and pi[0] == 'raise_if':
         val = values.get(pi[1])
         if isinstance(val, Factory): val = val.product
@@ -499,7 +501,7 @@ def _dc(ty, v):
     for f in fields:
         if not f.init and f.dflt == 'val':
             values[f.name] = f.dval
-    if _post_init_rejects(S, values): return rej('post_init')
+    if _post_init_rejects(S, values, set_fields): return rej('post_init')
     return acc(Inst(cls, values, set_fields))
 
 
